@@ -1,0 +1,26 @@
+//go:build verif
+
+// Machine-checked contracts for the functions of this package that the
+// properties in /verif/properties.jsonl depend on. This file contains comments
+// only: the contracts are read by /verif/govc, which generates verification
+// conditions from the go/ssa form of the functions in this directory and
+// discharges them with SMT solvers. Syntax: see /verif/DESIGN.md section 2.2.
+
+package runtime
+
+//@ func NewSlice3
+//@ props C03 C05
+//@ requires cap >= 0
+//@ panics_iff C03 bounds: !(0 <= i && i <= j && j <= k && k <= cap)
+//@ ensures C05 len: s.len == j - i
+//@ ensures C05 cap: s.cap == k - i
+//@ ensures C05 window: (k - i > 0 ==> s.data == base + uintptr(i*eltSize)) && (k - i == 0 ==> s.data == base)
+//@ modifies nothing
+
+//@ func StringSlice
+//@ props C03 C05
+//@ requires base.len >= 0
+//@ panics_iff C03 bounds: !(0 <= i && i <= j && j <= base.len)
+//@ ensures C05 len: result.len == j - i
+//@ ensures C05 window: (i < base.len ==> result.data == base.data + uintptr(i)) && (i == base.len ==> result.data == base.data)
+//@ modifies nothing
